@@ -31,6 +31,9 @@ const (
 	// FamNoBIP34: like Flat but BIP34 never activates, so coinbases with
 	// identical txids are legal once the earlier one is fully spent (BIP30).
 	FamNoBIP34 Family = "nobip34"
+	// FamGates: like Flat, but the BIP34/BIP66/BIP65 version gates switch on
+	// at heights 4/6/8 and the subsidy halves every 5 blocks.
+	FamGates Family = "gates"
 	// FamWork: testnet-style minimum-difficulty rule with a genesis that is
 	// 16x harder than the limit and no retarget within reach: each block
 	// chooses (by its timestamp) between 1 and 16 units of work, so the
@@ -58,6 +61,9 @@ func NewParams(f Family, maturity uint16) *chaincfg.Params {
 	case FamFlat:
 	case FamNoBIP34:
 		p.BIP0034Height = 1 << 30
+	case FamGates:
+		p.BIP0034Height, p.BIP0066Height, p.BIP0065Height = 4, 6, 8
+		p.SubsidyReductionInterval = 5
 	case FamWork:
 		p.PoWNoRetargeting = false
 		p.ReduceMinDifficulty = true
